@@ -251,7 +251,6 @@ package db
 // carries (64-bit integer, float, boolean, text, blob, NULL), position and count preserved.
 //@ func parametersToValues
 //@   safe
-//@   requires [elems] forall j int :: (0 <= j && j < len(parameters)) ==> parameters[j] != nil
 //@   assert @sql.Named#1: [int-bound-as-is] arg0 == parameters[i].Name && arg1 == w.I
 //@   assert @sql.Named#2: [float-bound-as-is] arg0 == parameters[i].Name && arg1 == w.D
 //@   assert @sql.Named#3: [bool-bound-as-is] arg0 == parameters[i].Name && arg1 == w.B
